@@ -171,6 +171,7 @@ def math_part(ctx, drv, mdl, quick):
             ctx.violation("model driver produced no verdict", "model_missing.json", {"body": body}, no_input=True)
             break
         cases.append((origin, body, f[0][4:], f[1][4:]))
+    ctx.log("model verdicts for %d cases ready" % len(cases))
     # --- the library
     lines = [b.encode().hex() for _, b, _, _ in cases]
     outs = run_sharded(drv, "math", lines, wd, "math", env_with(ASAN_OPTIONS=ASAN_FAST, UBSAN_OPTIONS=UBSAN_FAST))
@@ -324,9 +325,9 @@ def make_inputs(ctx, quick):
     for p in files:
         b = open(p, "rb").read()
         data[p] = b
-        weights.append(1.0 if len(b) < 6000 else (0.4 if len(b) < 30000 else 0.08))
-    n_mut = 1500 if quick else 90000
-    n_raw = 250 if quick else 10000
+        weights.append(1.0 if len(b) < 6000 else (0.3 if len(b) < 30000 else (0.03 if len(b) < 64 * 1024 else 0.0)))
+    n_mut = 2000 if quick else 36000
+    n_raw = 300 if quick else 4000
     n = 0
     for k in range(n_mut + n_raw):
         src = rng.choices(files, weights)[0]
@@ -454,8 +455,9 @@ def classify(mode, d, bang, stage, models, verdicts):
     mine = [m for m in models if m["label"].startswith(mode)] or models
     ana, pw = verdicts.get(mode, (set(), set()))
     # K3: a recursive unit reducer on a cyclic units graph -> stack exhaustion
-    if v.startswith("CRASH") and kind == "stack-overflow" and stage in K3_STAGES and units_cycle(mine):
-        return "C01-K3-units-cycle", "stage %s: stack exhaustion (%s) on a cyclic units graph" % (stage, top)
+    if ((v.startswith("CRASH") and kind == "stack-overflow") or v.startswith("TIMEOUT")) and stage in K3_STAGES and units_cycle(mine):
+        return "C01-K3-units-cycle", "stage %s: %s on a cyclic units graph" % (
+            stage, "no return within the time limit" if v.startswith("TIMEOUT") else "stack exhaustion (%s)" % top)
     # a units whose <unit> references a name that is neither standard nor defined: referencedUnits(model, nullptr)
     if v.startswith("CRASH") and kind.startswith(NULL_KINDS) and "referencedUnits" in frames \
             and any(u["dangling"] for m in mine for u in m.get("units", [])):
@@ -483,7 +485,7 @@ def classify(mode, d, bang, stage, models, verdicts):
 
 def pipeline_part(ctx, drv, mdl, quick):
     inputs = make_inputs(ctx, quick)
-    envp = env_with(ASAN_OPTIONS=ASAN, UBSAN_OPTIONS=UBSAN)
+    envp = env_with(ASAN_OPTIONS=ASAN, UBSAN_OPTIONS=UBSAN, C01_SECONDS="30")
     t0 = time.time()
     outs = run_sharded(drv, "pipe", ["%s\t%s\tsp\t" % (p, b) for p, b, _, _ in inputs], ctx.workdir, "pipe", envp)
     ctx.log("pipeline: %d inputs in %.0fs" % (len(inputs), time.time() - t0))
@@ -517,7 +519,7 @@ def pipeline_part(ctx, drv, mdl, quick):
             batch = [w for w in torun if w[4] == slow]
             if batch:
                 lines = ["%s\t%s\t%s\t%s" % (inputs[w[0]][0], inputs[w[0]][1], w[1], ",".join(w[3])) for w in batch]
-                e = env_with(ASAN_OPTIONS=ASAN, UBSAN_OPTIONS=UBSAN, C01_SECONDS="200") if slow else envp
+                e = env_with(ASAN_OPTIONS=ASAN, UBSAN_OPTIONS=UBSAN, C01_SECONDS="120") if slow else envp
                 o = run_sharded(drv, "pipe", lines, ctx.workdir, "rerun", e, nsh=(4 if slow else None))
                 reruns += len(batch)
                 for w, seg in zip(batch, o):
@@ -537,16 +539,20 @@ def pipeline_part(ctx, drv, mdl, quick):
                 continue
             stage = dead[0]
             v = d[stage]
-            if v.startswith("TIMEOUT") and not slow:
+            fid, text = classify(mode, d, bang, stage, descs.get(k, []), verds.get(k, {}))
+            if v.startswith("TIMEOUT") and not slow and fid is None:
                 nxt.append([k, mode, None, skip, True])      # once more, alone-ish and with a generous limit
                 continue
-            fid, text = classify(mode, d, bang, stage, descs.get(k, []), verds.get(k, {}))
             key = "%s:%s" % (stage, fid or "UNLISTED")
             stage_hist[key] = stage_hist.get(key, 0) + 1
             if fid and ctx.known_finding(fid, "%s [%s parse, input %s (%s)]" % (text, "strict" if mode == "s" else "permissive",
                                                                                os.path.basename(path), label)):
                 hist[fid] = hist.get(fid, 0) + 1
+                if fid == "C01-K3-units-cycle":
+                    continue        # every later stage reduces units as well: nothing to see behind this crash
                 skip = skip + [stage]
+                if fid == "C01-Kdangling-units-reference":
+                    skip += [x for x in ("Qi", "Qd", "C", "Q2", "Qd2", "F") if x not in skip]
                 if stage in ("A", "FA"):
                     skip += [x for x in (("Gc", "Gp") if stage == "A" else ("FGc", "FGp")) if x not in skip]
                 if rnd < 9:
@@ -592,6 +598,7 @@ def run(ctx):
         "known findings are matched on the INPUT (units reference cycle in the parsed model, MathML shape class decided by the extracted model, failed import resolution) plus the dying stage",
     ]
     drv, mdl = build(ctx)
+    ctx.log("build + drivers ready")
     n1, h1, enum_stats, nt1, samples = math_part(ctx, drv, mdl, quick)
     n2, h2 = pow_part(ctx, drv, mdl)
     n3, h3, labels, stages, nt3 = pipeline_part(ctx, drv, mdl, quick)
